@@ -52,11 +52,12 @@ def make_script(sc: dict, i: int):
     s = sc["sims"][i]
     typ = s["type"]
     seed = sc["beh_seed"]
+    ident = s.get("name", i)          # identity that survives a change of the start order
     agents_of = [c for c in sc["connects"] if c.get("async") and c["dst"] == i]
     fault = sc.get("fault")
 
     def script(t, k, n):
-        r = h(seed, i, t, k)
+        r = h(seed, ident, t, k)
         beh = {}
         if typ == "time-based":
             beh["next"] = t + 1 + r % 3
@@ -68,12 +69,12 @@ def make_script(sc: dict, i: int):
             settle = sc["loop_len"]
         for e in (0, 1):
             for a in (2, 3):
-                rr = h(seed, i, t, k, e, a)
+                rr = h(seed, ident, t, k, e, a)
                 if is_persistent(typ, a):
                     if not sc.get("sparse_persistent") or rr % 4 != 0:
-                        out[(str(e), ATTRS[a])] = token(i, n, e, a)
+                        out[(str(e), ATTRS[a])] = token(ident, n, e, a)
                 elif k < settle and (rr % 3 != 0 or "loop_len" in sc):
-                    out[(str(e), ATTRS[a])] = token(i, n, e, a)
+                    out[(str(e), ATTRS[a])] = token(ident, n, e, a)
         beh["out"] = out
         if typ != "time-based" and sc.get("future_outputs") and (r >> 20) % 4 == 0:
             beh["out_time"] = t + 1 + (r >> 23) % 2
